@@ -98,7 +98,7 @@ func newVestEnvOpts(r *rand.Rand, opt vestOpts) (*vestEnv, error) {
 	e := &vestEnv{everDelegated: map[string]bool{}, keys: map[string]chain.Key{}, traced: map[string]bool{}, derived: map[string]bool{}, depth: map[string]int{}, cov: map[string]int64{}}
 	e.moduleAddr = chain.ModuleAddr(vesttypes.ModuleName)
 	e.feeAddr = chain.ModuleAddr(authtypes.FeeCollectorName)
-	frees := []string{"0", "1", "0.05", "0.000000000000000001", fmt.Sprintf("0.%018d", r.Int63n(1_000_000_000_000_000_000))}
+	frees := []string{"0", "1", "0.05", "0.000000000000000001", fmt.Sprintf("0.%018d", r.Int63n(1_000_000_000_000_000_000)), "0.5"}
 	durs := []time.Duration{0, time.Second, 3 * time.Minute, time.Hour, 24 * time.Hour, 10 * 24 * time.Hour, time.Duration(1+r.Intn(500)) * time.Minute}
 	var gts []vesttypes.GenesisVestingType
 	for i, f := range frees {
@@ -106,6 +106,10 @@ func newVestEnvOpts(r *rand.Rand, opt vestOpts) (*vestEnv, error) {
 		vest := durs[r.Intn(len(durs))]
 		if i == 0 {
 			lock, vest = 0, 0
+		}
+		if i == 5 {
+			// very long periods: each valid on its own, their sum beyond what a Duration can hold
+			lock, vest = 60000*24*time.Hour, time.Duration(50000+r.Intn(10000))*24*time.Hour
 		}
 		lv, lu := unitsOf(lock)
 		vv, vu := unitsOf(vest)
@@ -278,6 +282,10 @@ func (e *vestEnv) genOp(r *rand.Rand, now time.Time) vOp {
 	var fee sdk.Coins
 	if r.Intn(3) == 0 {
 		fee = sdk.NewCoins(sdk.NewCoin(vDenom, sdk.NewInt(int64(1+r.Intn(5000)))))
+		if r.Intn(3) == 0 {
+			// fees may be paid in any denomination the payer holds
+			fee = sdk.NewCoins(sdk.NewCoin("foo", sdk.NewInt(int64(1+r.Intn(500000)))))
+		}
 	}
 	x := r.Intn(100)
 	if e.profile == "split" && len(e.cvaKeys) > 0 && r.Intn(2) == 0 {
@@ -365,7 +373,7 @@ func (e *vestEnv) genOp(r *rand.Rand, now time.Time) vOp {
 			signer = e.strangers[0]
 		}
 		// vesting accounts usually have nothing spendable to pay a fee with
-		if fee != nil && e.n.App.BankKeeper.SpendableCoins(e.n.Ctx(), signer.Addr).AmountOf(vDenom).LT(fee.AmountOf(vDenom)) {
+		if fee != nil && !e.n.App.BankKeeper.SpendableCoins(e.n.Ctx(), signer.Addr).IsAllGTE(fee) {
 			fee = nil
 		}
 		to := e.randRecipient(r)
